@@ -368,8 +368,9 @@ func (m *Multi) Subseq(start, end int) (*Multi, error) {
 	var ns []seq.Sequence
 
 	for _, r := range m.Seq {
-		rs := reflect.New(reflect.TypeOf(r)).Interface().(sequtils.Sliceable)
-		err := sequtils.Truncate(rs, r, start, end)
+		// Truncate a copy of the row so that its annotation is retained.
+		rs := r.Clone().(sequtils.Sliceable)
+		err := sequtils.Truncate(rs, rs, start, end)
 		if err != nil {
 			return nil, err
 		}
